@@ -608,3 +608,6 @@ _addtie("C12", ["TieStartup"], TIE_STARTUP)
 _addtie("C11", ["TieStartup"], [_T + "su_tie_readVersion_value", _T + "su_tie_VersionSSLRequest", _T + "su_tie_VersionCancel"])
 _addtie("C04", ["TieStartup"], [_T + n for n in ("su_readClientParameters_returns", "su_tie_readVersion",
                                                    "su_tie_readVersion_exceeded", "su_tie_readVersion_short")])
+# timestamp / date columns (outside the Lean model's ten types; `nomodel`): the wall clock written is the wall clock sent,
+# in text and in binary format - expectation computed by the generator independently of the library (C09)
+_addcamp("C09", "times", 400, 20000)
